@@ -846,6 +846,10 @@ pub fn run(ctx: &Ctx) -> Report {
         "an exception that leaves a fiber's outermost frame ends the whole run (the repository's throw_from_fiber script fixes that reading)".into(),
         "for fibers abandoned while suspended the use-after-free side is C01's (suspended fiber as a holder, swept objects quarantined); here their captured variables are followed through every sequence of four uses of up to three counters handed out by abandoned fibers".into(),
     ];
+    // the fiber operations that fail (and those that do not) leave the calling function's variables intact:
+    // C08's family, the rows of Fiber and the Fiber class (every tuple of 0-2 arguments from eight values)
+    let n_fv = crate::c08::failing_built_ins_leave_variables_intact(ctx, &mut report, true);
+    report.cov("fiber_operations_leave_the_callers_variables_intact", json!(n_fv));
     record_known(&mut report, &active, &stats.attributed);
     report.violations.extend(stats.violations);
     // fibers abandoned while suspended: expected numbers computed here (M-eval has no yield)
